@@ -387,6 +387,10 @@ func cleanupNewRing(newRing [][2]float64, isOuter bool, hitMultiple map[intgeom.
 		newRing = newRing[:newRingLen-1]
 		newRingLen--
 	}
+	// an empty (input) ring has no points or lines to keep
+	if newRingLen == 0 {
+		return nil, nil, nil
+	}
 	// filter out too small rings
 	if newRingLen < 3 {
 		return nil, nil, [][][2]float64{newRing}
